@@ -182,7 +182,12 @@ def consts_of(e):
     return out
 
 
+DEFS = []     # (name of the fresh symbol, defining formula): conservative extensions
 _quant_cache = {}
+
+
+def define(name, formula):
+    DEFS.append((name, formula))
 
 
 def has_quantifier(e):
@@ -208,12 +213,27 @@ def has_quantifier(e):
 def axioms_for(formulas):
     """The div/mod definitions relevant to `formulas` (transitively), each in the strongest
     form the formulas allow: unguarded when the divisor's sign follows from them."""
-    if not _DM_CACHE:
-        return []
     names = set()
     for f in formulas:
         if is_z3(f):
             names |= consts_of(f)
+    defs_out = []
+    if DEFS:
+        pend = list(DEFS)
+        ch = True
+        while ch:
+            ch = False
+            rest = []
+            for nm, fm in pend:
+                if nm in names:
+                    defs_out.append(fm)
+                    names |= consts_of(fm)
+                    ch = True
+                else:
+                    rest.append((nm, fm))
+            pend = rest
+    if not _DM_CACHE:
+        return defs_out
     chosen = []
     pending = list(_DM_CACHE.values())
     changed = True
@@ -230,8 +250,8 @@ def axioms_for(formulas):
                 rest.append(ent)
         pending = rest
     if not chosen:
-        return []
-    out = []
+        return defs_out
+    out = list(defs_out)
     # functional consistency (what an uninterpreted-function encoding would give for free)
     for i in range(len(chosen)):
         for j in range(i + 1, len(chosen)):
@@ -367,7 +387,10 @@ class Arith(object):
                 return and_const(y, a)
             raise EngineError("symbolic & symbolic on Int (use the bit-vector model)")
         if op == '|':
-            raise EngineError("| on Int (use the bit-vector model)")
+            r = or_disjoint(x, y)
+            if r is not None:
+                return r
+            raise EngineError("| on Int terms whose bit ranges are not syntactically disjoint (use the bit-vector model)")
         if op == '^':
             raise EngineError("^ on Int (use the bit-vector model)")
         if op == '**':
@@ -459,6 +482,58 @@ class Arith(object):
             import operator as o
             return {'<': o.lt, '<=': o.le, '>': o.gt, '>=': o.ge}[op](x, y)
         return {'<': lambda: x < y, '<=': lambda: x <= y, '>': lambda: x > y, '>=': lambda: x >= y}[op]()
+
+
+def _low_zero_bits(t):
+    """k such that t is syntactically a multiple of 2^k"""
+    if z3.is_int_value(t):
+        v = t.as_long()
+        if v == 0:
+            return 10 ** 6
+        k = 0
+        while v % 2 == 0:
+            v //= 2
+            k += 1
+        return k
+    if z3.is_mul(t):
+        return sum(_low_zero_bits(c) for c in t.children())
+    if z3.is_add(t):
+        return min(_low_zero_bits(c) for c in t.children())
+    return 0
+
+
+def _bits_bound(t):
+    """m such that syntactically 0 <= t < 2^m, else None"""
+    if z3.is_int_value(t):
+        v = t.as_long()
+        return v.bit_length() if v >= 0 else None
+    if z3.is_app_of(t, z3.Z3_OP_MOD) and z3.is_int_value(t.arg(1)):
+        d = t.arg(1).as_long()
+        if d > 0:
+            return (d - 1).bit_length()
+    if z3.is_mul(t) and t.num_args() == 2 and z3.is_int_value(t.arg(0)) and t.arg(0).as_long() > 0:
+        inner = _bits_bound(t.arg(1))
+        if inner is not None:
+            return inner + (t.arg(0).as_long()).bit_length()
+    if z3.is_add(t):
+        bs = [_bits_bound(c) for c in t.children()]
+        if all(b is not None for b in bs):
+            return max(bs) + len(bs)
+    if z3.is_app_of(t, z3.Z3_OP_ITE):
+        a, b = _bits_bound(t.arg(1)), _bits_bound(t.arg(2))
+        if a is not None and b is not None:
+            return max(a, b)
+    return None
+
+
+def or_disjoint(x, y):
+    """x | y == x + y when the set bits cannot overlap (checked syntactically)"""
+    for a, b in ((x, y), (y, x)):
+        zb = _low_zero_bits(a)
+        bb = _bits_bound(b)
+        if bb is not None and bb <= zb:
+            return a + b
+    return None
 
 
 def and_const(x, c):
